@@ -83,6 +83,7 @@ func (w *structWriter) decode_method(def *model.Definition) error {
 	w.line(`b = b[len(b)-size:]
 	n := size - dataSize
 	off := len(b) - n
+	_ = off // unused when the struct has no fields
 	`)
 	w.line()
 
